@@ -109,7 +109,7 @@ func (l *Ledger) Check(ok bool, rule, fn, construct, pos, okDetail, badDetail st
 // discharged (it can only help a floor). Everything else stays as the first pass found it.
 // Sound because the inlined view is the same program (calls to private helpers replaced by their
 // bodies): a rule that holds on it holds for the code.
-func (l *Ledger) MergeViewRun(v *Ledger) (replaced, added int) {
+func (l *Ledger) MergeViewRun(v *Ledger, isKnown func(*Obligation) bool) (replaced, added int) {
 	type key struct{ rule, fn string }
 	group := func(obs []*Obligation) (map[key][]*Obligation, []key) {
 		m := map[key][]*Obligation{}
@@ -123,9 +123,11 @@ func (l *Ledger) MergeViewRun(v *Ledger) (replaced, added int) {
 		}
 		return m, order
 	}
+	// "clean": every obligation discharged — a violation that is a recorded known finding does not
+	// make a group unclean (it is reported as such either way)
 	clean := func(g []*Obligation) bool {
 		for _, o := range g {
-			if o.Status != Discharged {
+			if o.Status != Discharged && !(isKnown != nil && isKnown(o)) {
 				return false
 			}
 		}
